@@ -11,6 +11,20 @@ SIMHOST = os.path.join(BUILD, "simhost")
 MODS = os.path.join(BUILD, "mods")
 STUBS = os.path.join(BUILD, "stubs")
 STEP_TIMEOUT = float(os.environ.get("VERIF_STEP_TIMEOUT", "30"))
+# A step that burns this much CPU in the daemon process without answering is a hang whatever the load of the
+# machine (an ordinary step costs microseconds to milliseconds); a step that stays blocked without using CPU is a
+# hang after STEP_TIMEOUT of wall time.
+HANG_CPU = float(os.environ.get("VERIF_HANG_CPU", "6"))
+_TICK = os.sysconf("SC_CLK_TCK")
+
+
+def _cpu_of(pid):
+    try:
+        with open("/proc/%d/stat" % pid, "rb") as f:
+            t = f.read().rsplit(b")", 1)[1].split()
+        return (int(t[11]) + int(t[12])) / _TICK
+    except (OSError, IndexError, ValueError):
+        return None
 
 
 class HostDied(Exception):
@@ -126,9 +140,19 @@ class Host:
 
     # ------------------------------------------------------------ low level
     def _fill(self):
-        rl, _, _ = select.select([self.r], [], [], STEP_TIMEOUT)
-        if not rl:
-            raise HostHang("no reply within %.0fs" % STEP_TIMEOUT)
+        t0 = time.time()
+        c0 = None
+        while True:
+            rl, _, _ = select.select([self.r], [], [], 0.5)
+            if rl:
+                break
+            c = _cpu_of(self.p.pid)
+            if c0 is None:
+                c0 = c
+            elif c is not None and c0 is not None and c - c0 > HANG_CPU:
+                raise HostHang("no reply after %.0fs of CPU" % HANG_CPU)
+            if time.time() - t0 > STEP_TIMEOUT:
+                raise HostHang("no reply within %.0fs" % STEP_TIMEOUT)
         d = os.read(self.r, 1 << 16)
         if not d:
             raise HostDied()
